@@ -212,6 +212,91 @@ class Rewrites(Family):
         return Result('credited' if same else 'refused', True, None, execs)
 
 
+class ZeroExpected(Family):
+    name = 'zero_expected_percentage'
+    kind = 'CHOICE'
+    timeout = 300.0
+    rule = ('percentage tolerance when the author\'s value is exactly zero at a sample (p% of 0 is 0: only an exact match agrees there): '
+            'answers x, x*(x-3), [x, 2*x] with x drawn from (0, 3), students answer+d / entrywise +d with d drawn from (0, 0.3p, 30p); '
+            'all sampled combinations x tolerances {1%, 10%, 100%} x samples 1-2 x failable_evals 0..2; plus NumericalGrader answers 0 and 0*i')
+
+    FORMS = {
+        'x': ('F', 'x', 'x+d', lambda x: abs(x), lambda d: abs(d)),
+        'xx3': ('F', 'x*(x-3)', 'x*(x-3)+d', lambda x: abs(x * (x - 3)), lambda d: abs(d)),
+        'vec': ('M', '[x, 2*x]', '[x+d, 2*x]', lambda x: math.sqrt(5) * abs(x), lambda d: abs(d)),
+    }
+
+    def cases(self, tier):
+        for form in ('x', 'xx3', 'vec'):
+            for tol in ('1%', '10%', '100%'):
+                for n in (1, 2):
+                    for k in range(0, n + 1):
+                        yield (form, tol, n, k)
+        for tol in ('1%', '10%', '100%', '0%', 0.01):
+            for j in range(6):
+                yield ('num', tol, j)
+
+    def check(self, case):
+        if case[0] == 'num':
+            _, tol, j = case
+            mode, t = tol_value(tol)
+            answer = ['0', '0*i', '2-2', '0', '0', '0'][j]
+            student = ['0', '0', '0.0', '0.004', '-1e-9', '0.004*i'][j]
+            miss = [0, 0, 0, 0.004, 1e-9, 0.004][j]
+            tl = 0.0 if mode == 'pct' else t
+            correct = not (miss > tl)
+            try:
+                res = NumericalGrader(answers=answer, tolerance=tol)(None, student)
+            except Exception as e:
+                return Result('raised', True, viol('zero:raised', '%r' % e))
+            if (res['grade_decimal'] == 1) != correct:
+                return Result('wrong', True,
+                              viol('zero:numerical:%s' % ('credit-for-miss' if res['grade_decimal'] else 'no-credit-for-match'),
+                                   'NumericalGrader answer %r tolerance %r student %r: expected %s, got %r'
+                                   % (answer, tol, student, 'correct' if correct else 'incorrect', res), correct, res))
+            return Result('correct' if correct else 'incorrect', True)
+        form, tol, n, k = case
+        gk, answer, student, normf, missf = self.FORMS[form]
+        mode, p = tol_value(tol)
+        X = (0, 3)
+        D = (0, 0.3 * p, 30 * p)
+        cls = FormulaGrader if gk == 'F' else MatrixGrader
+        grader = cls(answers=answer, variables=['x', 'd'], sample_from={'x': DiscreteSet(X), 'd': DiscreteSet(D)},
+                     samples=n, failable_evals=k, tolerance=tol)
+
+        def body(ch):
+            try:
+                return ('ok', grader(None, student))
+            except Exception as e:
+                return ('err', type(e).__name__, str(e))
+        execs = 0
+        verdicts = set()
+        for ch, out in chooser.explore(body, bound=None):
+            execs += 1
+            xs = [v[1][v[2]] for v in ch.values if isinstance(v, tuple) and v[0] == 'choice' and v[1] == X]
+            ds = [v[1][v[2]] for v in ch.values if isinstance(v, tuple) and v[0] == 'choice' and v[1] == D]
+            failures = 0
+            for i in range(n):
+                tl = p * normf(xs[i])
+                miss = missf(ds[i])
+                if miss != 0 and tl != 0 and abs(miss - tl) <= 0.04 * tl:
+                    raise HarnessError('guard band')
+                if miss > tl:
+                    failures += 1
+            correct = failures <= k and not (n == 1 and failures >= 1)
+            verdicts.add(correct)
+            if out[0] != 'ok':
+                return Result('raised', True, viol('zero:raised', '%r raised %r' % (case, out[1:])), execs)
+            if (out[1]['grade_decimal'] == 1) != correct:
+                return Result('wrong', True,
+                              viol('zero:%s:%s' % (form, 'credit-for-miss' if out[1]['grade_decimal'] else 'no-credit-for-match'),
+                                   '%s answer %r tolerance %r samples %d failable %d student %r; sampled x=%r d=%r: %d sample(s) out of '
+                                   'tolerance (p%% of a zero value is 0) -> expected %s, got %r'
+                                   % (cls.__name__, answer, tol, n, k, student, xs[:n], ds[:n], failures,
+                                      'correct' if correct else 'incorrect', out[1]), correct, out[1]), execs)
+        return Result('both' if len(verdicts) == 2 else 'one', len(verdicts) == 2, None, execs)
+
+
 NUM_ANSWERS = [('10', 10), ('-4', -4), ('0.5', 0.5), ('2+3*i', 2 + 3j)]
 
 
@@ -309,4 +394,4 @@ class Infinity(Family):
 
 
 def families(tier):
-    return [SampleCounting(), Rewrites(), Numerical(), Infinity()]
+    return [SampleCounting(), Rewrites(), Numerical(), Infinity(), ZeroExpected()]
